@@ -135,8 +135,8 @@ impl Abrm {
         device: &mut Ctrl,
     ) -> ControlResult<semver::Version> {
         let gencp_version: u32 = self.read_register(device, abrm::GENCP_VERSION)?;
-        let gencp_version_minor = gencp_version & 0xff;
-        let gencp_version_major = (gencp_version >> 16_i32) & 0xff;
+        let gencp_version_minor = gencp_version & 0xffff;
+        let gencp_version_major = (gencp_version >> 16_i32) & 0xffff;
         Ok(semver::Version::new(
             u64::from(gencp_version_major),
             u64::from(gencp_version_minor),
@@ -388,8 +388,8 @@ impl Sbrm {
         device: &mut Ctrl,
     ) -> ControlResult<semver::Version> {
         let u3v_version: u32 = self.read_register(device, sbrm::U3V_VERSION)?;
-        let u3v_version_minor = u3v_version & 0xff;
-        let u3v_version_major = (u3v_version >> 16_i32) & 0xff;
+        let u3v_version_minor = u3v_version & 0xffff;
+        let u3v_version_major = (u3v_version >> 16_i32) & 0xffff;
 
         Ok(semver::Version::new(
             u64::from(u3v_version_major),
@@ -829,7 +829,7 @@ impl ManifestEntry {
         device: &mut Ctrl,
     ) -> ControlResult<semver::Version> {
         let file_version: u32 = self.read_register(device, manifest_entry::GENICAM_FILE_VERSION)?;
-        let subminor = file_version & 0xff;
+        let subminor = file_version & 0xffff;
         let minor = (file_version >> 16_i32) & 0xff;
         let major = (file_version >> 24_i32) & 0xff;
 
